@@ -261,9 +261,13 @@ fn program(case: &[i128]) -> Option<Prog> {
                 1 | 3 => "let _r = x.partial_cmp(&y);",
                 2 => "let _r = x.cmp(&y);",
                 4 => "let _r: bool = x < y;",
-                5 => "let _r: bool = x == y;",
+                5 | 7 => "let _r: bool = x == y;",
                 _ => "let _r: bool = x.lt(&y);",
             };
+            // variant 7: the right-hand side is a NATIVE array of another length
+            if v == 7 {
+                return Some(lens_fn("(x, y)", &format!("({}, [u8; {}])", ga("u8", n), k), false, &format!("{} ()", e)));
+            }
             // variants 3..: elements that are PartialOrd but not Ord (a method call must not fall
             // through to the slice impl, which would accept any two lengths)
             let el = if v >= 3 { "f64" } else { "u8" };
@@ -364,6 +368,23 @@ fn program(case: &[i128]) -> Option<Prog> {
         }
         50 => {
             // code generic over the sequence type: the result type after a round trip must be S itself
+            // 4..8: callers generic over a length-relating trait that state only what the trait's declaration asks for
+            if (4..=8).contains(&v) {
+                let g = match v {
+                    4 => "pub fn g<A, M>(a: A, b: A::Rest) -> A::Output where A: Concat<u8, M>, M: ArrayLength { a.concat(b) }",
+                    5 => "pub fn g<N, M>(a: GenericArray<u8, N>, b: GenericArray<u8, M>) -> GenericArray<u8, typenum::Sum<N, M>> where N: ArrayLength + core::ops::Add<M>, M: ArrayLength, typenum::Sum<N, M>: ArrayLength { a.concat(b) }",
+                    6 => "pub fn g<S, K>(s: S) -> (S::First, S::Second) where S: Split<u8, K>, K: ArrayLength { s.split() }",
+                    7 => "pub fn g<S, N>(s: S) -> (u8, S::Output) where S: Remove<u8, N>, N: ArrayLength { s.remove(0) }",
+                    _ => "pub fn g<S, N, M>(s: S) -> S::Output where S: Flatten<u8, N, M>, N: ArrayLength + core::ops::Mul<M>, typenum::Prod<N, M>: ArrayLength { s.flatten() }",
+                };
+                let call = match v {
+                    4 | 5 => format!("pub fn call(x: {}, y: {}) -> {} {{ g(x, y) }}", ga("u8", n), ga("u8", 2), ga("u8", n + 2)),
+                    6 => format!("pub fn call(x: {}) -> ({}, {}) {{ g::<_, {}>(x) }}", ga("u8", n + 1), ga("u8", 1), ga("u8", n), uint(1)),
+                    7 => format!("pub fn call(x: {}) -> (u8, {}) {{ g(x) }}", ga("u8", n + 1), ga("u8", n)),
+                    _ => format!("pub fn call(x: GenericArray<{}, {}>) -> {} {{ g(x) }}", ga("u8", n), uint(2), ga("u8", 2 * n)),
+                };
+                return Some(Prog { body: format!("{}\n{}\n", g, call), has_lens: false, kind: Kind::Length });
+            }
             let (bound, body) = match v {
                 0 => ("Lengthen<u8>", "s.append(7u8).pop_back().0"),
                 2 => ("Lengthen<u8>", "s.prepend(7u8).pop_front().1"),
@@ -561,10 +582,14 @@ fn cases(tier: &str, rng: &mut Rng) -> Vec<Vec<i128>> {
         push(40, v, 0, 0, -1, 0);
     }
     // 50 round trips in code generic over the sequence type
-    for v in 0..4 {
+    for v in 0..9 {
         for n in [0i128, 1, 3] {
             push(50, v, n, 0, -1, 0);
         }
+    }
+    // a GenericArray compared with a native array of another length
+    for (n, k) in [(0i128, 1i128), (1, 0), (3, 4), (4, 3), (1, 2)] {
+        push(9, 7, n, k, -1, 0);
     }
     // seeded extras: random lengths up to 40 for the two-parameter operations
     let extra = if th { 60 } else { 8 };
